@@ -428,9 +428,9 @@ impl Run {
             let store = self.store.clone();
             let ctxs = self.ctxs.clone();
             let results = self.results.clone();
-            xs::verif::expect_thread("writer");
+            let ticket = xs::verif::expect_thread("writer");
             std::thread::spawn(move || {
-                let _scope = xs::verif::thread_scope("writer");
+                let _scope = xs::verif::thread_scope("writer", ticket);
                 let (store, results) = (store, results);
                 for (i, a) in specs.iter().enumerate() {
                     let frame = Frame::builder(a.topic.clone(), ctx_of(&ctxs, a.ctx))
@@ -447,9 +447,9 @@ impl Run {
         for r in &self.removers {
             let store = self.store.clone();
             let id = r.ctx;
-            xs::verif::expect_thread("remover");
+            let ticket = xs::verif::expect_thread("remover");
             std::thread::spawn(move || {
-                let _scope = xs::verif::thread_scope("remover");
+                let _scope = xs::verif::thread_scope("remover", ticket);
                 let store = store;
                 let _ = store.remove(&id);
                 xs::verif::point("remover.end", 0);
